@@ -39,6 +39,7 @@ type PreCur struct {
 //
 //	step     run one Converge of task Tid to completion
 //	adv      (interleaved mode) let task Tid run to its next database statement / end of step
+//	advuntil (interleaved mode) advance task Tid until it has executed the operation named Call (K more times), or its step ends
 //	drain    (interleaved mode) finish every step in flight
 //	grow     the chain of source Src grows by K blocks; the node serves the new version
 //	reorg    new version of Src's chain: blocks >= Fork replaced by Len fresh ones; served from now on
@@ -55,6 +56,9 @@ type PreCur struct {
 //	xlag     (real-client mode) in the next step, HTTP exchanges with index >= K come from a node Len blocks behind
 //	xswitch  (real-client mode) in the next step, HTTP exchanges with index >= K are answered from version Ver
 //	restart  process restart (pool and tasks rebuilt); an ECrash is recorded
+//	reconfig process restart with batch size K and concurrency Len for source Src ("" = all): the
+//	         tasks get new ids (old id + 10); Tid in later acts may be ANY id of the pair (the
+//	         current task of that pair runs)
 //	clear    forget armed faults / call plans
 type Act struct {
 	Do   string `json:"do"`
@@ -219,6 +223,9 @@ func (sc *Scenario) Exec() (*Run, error) {
 		fail := func(err error) (*Run, error) {
 			return run, fmt.Errorf("act %d (%s): %w", ai, a.Do, err)
 		}
+		if a.Tid != 0 && w.Task(a.Tid) != nil {
+			a.Tid = w.Rep(a.Tid).ID // after a reconfiguration the pair's current task
+		}
 		if len(w.Rec.Events) > EventBudget {
 			return fail(fmt.Errorf("more than %d events recorded: a step keeps looping (reorg loop that never settles?)", EventBudget))
 		}
@@ -227,6 +234,7 @@ func (sc *Scenario) Exec() (*Run, error) {
 			if w.Task(a.Tid) == nil {
 				return fail(fmt.Errorf("no task %d", a.Tid))
 			}
+			a.Tid = w.Rep(a.Tid).ID
 			if err := afterStep(w.Step(a.Tid)); err != nil {
 				return fail(err)
 			}
@@ -237,11 +245,43 @@ func (sc *Scenario) Exec() (*Run, error) {
 			if w.Task(a.Tid) == nil {
 				return fail(fmt.Errorf("no task %d", a.Tid))
 			}
+			a.Tid = w.Rep(a.Tid).ID
 			ended, r := sched.Advance(a.Tid)
 			if ended {
 				r.Crashed = w.Rec.Crashed()
 				if err := afterStep(r); err != nil {
 					return fail(err)
+				}
+			}
+		case "advuntil":
+			// advance task Tid until the database operation it executed last is named Call
+			// for the K-th time (K = 0: first) within this act, or its step ends
+			if sched == nil {
+				sched = w.NewSched()
+			}
+			if w.Task(a.Tid) == nil {
+				return fail(fmt.Errorf("no task %d", a.Tid))
+			}
+			seen := 0
+			for guard := 0; guard < 400; guard++ {
+				n0 := len(w.Rec.Events)
+				ended, r := sched.Advance(a.Tid)
+				hit := false
+				for _, e := range w.Rec.Events[n0:] {
+					if e.Kind == "op" && e.Tid == a.Tid && e.Op.Name == a.Call {
+						seen++
+						hit = true
+					}
+				}
+				if ended {
+					r.Crashed = w.Rec.Crashed()
+					if err := afterStep(r); err != nil {
+						return fail(err)
+					}
+					break
+				}
+				if hit && seen > a.K {
+					break
 				}
 			}
 		case "drain":
@@ -306,6 +346,15 @@ func (sc *Scenario) Exec() (*Run, error) {
 			w.Nodes[srcOf(a)].XSwitch(a.K, a.Ver)
 		case "switchat":
 			w.Nodes[srcOf(a)].SwitchAt(a.Tid, a.K, a.Ver)
+		case "reconfig":
+			// restart with another batch size (K) and concurrency (Len) for source Src ("" = all)
+			if sched != nil && sched.AnyActive() {
+				return fail(fmt.Errorf("reconfig with steps in flight"))
+			}
+			run.Restarts = append(run.Restarts, len(w.Rec.Events))
+			if err := w.Reconfigure(a.Src, a.K, a.Len); err != nil {
+				return fail(err)
+			}
 		case "restart":
 			if sched != nil && sched.AnyActive() {
 				return fail(fmt.Errorf("restart with steps in flight"))
